@@ -63,7 +63,7 @@ func normTree(v any) any {
 }
 
 func treeDiff(path string, a, b any, out *[]string) {
-	if len(*out) > 5 {
+	if len(*out) > 400 {
 		return
 	}
 	switch x := a.(type) {
@@ -167,15 +167,28 @@ func C07(sp *spec.Spec, genDir string, mounted map[string][][2]string) *Verdict 
 		}
 		var diffs []string
 		treeDiff("", normTree(jt), normTree(yt), &diffs)
-		if len(diffs) > 0 {
+		// one finding per class of difference (a design often shows several unrelated ones)
+		byClass := map[string][]string{}
+		var order []string
+		for _, d := range diffs {
 			cls := "other"
 			switch {
-			case strings.Contains(diffs[0], "xample") && strings.Contains(diffs[0], " vs ["):
+			case (strings.Contains(d, "xample") || strings.Contains(d, ".default")) && strings.Contains(d, " vs ["):
 				cls = "bytes-example"
-			case strings.Contains(diffs[0], ".description"):
+			case strings.Contains(d, "escription: \n"):
+				cls = "description-leading-newline"
+			case strings.Contains(d, "escription"):
 				cls = "description-text"
 			}
-			v.add("openapi-json-yaml-differ:"+pair.name+":"+cls, "JSON and YAML renderings differ: %s", strings.Join(diffs, "; "))
+			if _, ok := byClass[cls]; !ok {
+				order = append(order, cls)
+			}
+			if len(byClass[cls]) < 4 {
+				byClass[cls] = append(byClass[cls], d)
+			}
+		}
+		for _, cls := range order {
+			v.add("openapi-json-yaml-differ:"+pair.name+":"+cls, "JSON and YAML renderings differ: %s", strings.Join(byClass[cls], "; "))
 		}
 	}
 	// ---- OpenAPI 3 validity
@@ -183,7 +196,21 @@ func C07(sp *spec.Spec, genDir string, mounted map[string][][2]string) *Verdict 
 	doc3, err := loader.LoadFromData(j3)
 	if err != nil {
 		v.add("openapi3-invalid:load:"+normOAErr(err), "openapi3.json does not load: %v", err)
-		return v
+		// one invalid keyword must not hide everything else: numeric exclusive bounds are rewritten into the
+		// OpenAPI 3.0 form and the rest of the document is judged as usual
+		var tree any
+		if json.Unmarshal(j3, &tree) != nil {
+			return v
+		}
+		tree, n := fixExclusive(tree)
+		fixed, _ := json.Marshal(tree)
+		if n == 0 {
+			return v
+		}
+		if doc3, err = openapi3.NewLoader().LoadFromData(fixed); err != nil {
+			v.add("openapi3-invalid:load:"+normOAErr(err), "openapi3.json does not load (numeric exclusive bounds rewritten): %v", err)
+			return v
+		}
 	}
 	// examples SHOULD (not MUST) match their schema: example validation is off
 	if err := doc3.Validate(context.Background(), openapi3.DisableExamplesValidation()); err != nil {
@@ -191,9 +218,22 @@ func C07(sp *spec.Spec, genDir string, mounted map[string][][2]string) *Verdict 
 	}
 	// ---- OpenAPI 2 validity
 	var doc2 openapi2.T
-	if err := json.Unmarshal(j2, &doc2); err != nil {
+	err = json.Unmarshal(j2, &doc2)
+	if err != nil {
 		v.add("openapi2-invalid:unmarshal:"+normOAErr(err), "openapi.json does not unmarshal as Swagger 2.0: %v", err)
-	} else {
+		// as for OpenAPI 3: rewrite numeric exclusive bounds and judge the rest
+		var tree any
+		if json.Unmarshal(j2, &tree) == nil {
+			if tree, n := fixExclusive(tree); n > 0 {
+				fixed, _ := json.Marshal(tree)
+				doc2 = openapi2.T{}
+				if err = json.Unmarshal(fixed, &doc2); err != nil {
+					v.add("openapi2-invalid:unmarshal:"+normOAErr(err), "openapi.json does not unmarshal as Swagger 2.0 (numeric exclusive bounds rewritten): %v", err)
+				}
+			}
+		}
+	}
+	if err == nil {
 		if conv, err := openapi2conv.ToV3(&doc2); err != nil {
 			// a limitation of the converter is not a defect of the document: only the structural rules judge then
 			v.Notes = append(v.Notes, "openapi2-converter-failed")
@@ -230,7 +270,23 @@ func C07(sp *spec.Spec, genDir string, mounted map[string][][2]string) *Verdict 
 				v.add("operation-documented-but-not-mounted:"+dd.name+":"+opClass(sp, k), "%s: %s is documented but the generated server does not mount it", dd.name, k)
 			}
 		}
-		// parameters, bodies, codes per design method
+		// parameters, bodies, codes per design method. A (verb, path) pair claimed by several methods of the
+		// design (goa accepts such designs; the last Mount wins on the muxer and the last operation wins in the
+		// document) cannot be attributed to one method: not judged.
+		claims := map[string]int{}
+		for _, sv := range sp.Services {
+			if sv.NoHTTP {
+				continue
+			}
+			for _, m := range sv.Methods {
+				if m.HTTP == nil {
+					continue
+				}
+				for ri, r := range m.HTTP.Routes {
+					claims[r.Verb+" "+normPath(cases.FullPath(sp, sv, m, ri))]++
+				}
+			}
+		}
 		for _, sv := range sp.Services {
 			if sv.NoHTTP {
 				continue
@@ -243,6 +299,10 @@ func C07(sp *spec.Spec, genDir string, mounted map[string][][2]string) *Verdict 
 					key := r.Verb + " " + normPath(cases.FullPath(sp, sv, m, ri))
 					op := dd.ops[key]
 					if op == nil {
+						continue
+					}
+					if claims[key] > 1 {
+						v.Notes = append(v.Notes, "route-claimed-by-several-methods")
 						continue
 					}
 					checkOp(sp, sv, m, op, dd.name, v)
